@@ -12,8 +12,8 @@ open StubGen
     collection (`_get_aliases`) contributes none: it is a total function (after the repair c9b80ef; before it, a
     function reached through its module object raised `TypeError` there). -/
 theorem tool_error_sources {i : ToolInput} {e : PyErr} (h : runTool i = .error e) :
-    discoverFrom i.srcDir i.files i.isTestRun = .error e ∨
-    ∃ root d, discoverFrom i.srcDir i.files i.isTestRun = .ok (root, d) ∧
+    discoverSorted i.srcDir i.files i.isTestRun = .error e ∨
+    ∃ root d, discoverSorted i.srcDir i.files i.isTestRun = .ok (root, d) ∧
       (analyze { opts := i.opts, aliases := getAliases (pathStem root) i.aliasFacts, infoBases := i.infoBases } i.docRoot
           (selectModules i.graph d) = .error e ∨
        ∃ r ws, analyze { opts := i.opts, aliases := getAliases (pathStem root) i.aliasFacts, infoBases := i.infoBases } i.docRoot
